@@ -120,6 +120,15 @@ func (s *Entry) newChildLogger(args ...any) *Entry {
 		return l
 	}
 
+	// the child must carry the very name it is indexed under: for an
+	// anonymous child newentry used to draw a second, different random name
+	if len(args) == 0 {
+		args = []any{name}
+	} else if _, isName := args[0].(string); isName {
+		args = append([]any{name}, args[1:]...)
+	} else {
+		args = append([]any{name}, args...)
+	}
 	s.items[name] = newentry(s, args...)
 	return s.items[name]
 }
